@@ -106,11 +106,13 @@ PROPS = {
     "C18": dict(
         units=["u13_named_args"],
         level="model_checking",
-        level_text=("calculate_named_arg_order (sliced, compiled against the real utils crate) is executed on all 11,715 call shapes with "
-                    "arity <= 3, <= 4 arguments, every subset of defaults and names {a,b,c,zz}: for accepted shapes slot i holds positional "
-                    "argument i, else the argument named param_i, else default_i; no input panics."),
-        level_note=("Exhaustive bounded execution, not a proof. calculate_func_call_order's misuse diagnostics (needs StaticsContext) and the "
-                    "translator's emission order are not covered; surplus positional arguments are silently dropped (reported in DESIGN.md)."),
+        level_text=("calculate_func_call_order and calculate_named_arg_order (sliced with the real resolve_identifier/SymbolTable, compiled against the "
+                    "real utils crate) are executed on all 11,715 call shapes with arity <= 3, <= 4 arguments, every subset of defaults and names "
+                    "{a,b,c,zz}: a diagnostic is produced exactly for the property's misuses (name that is not a parameter; the same parameter "
+                    "twice, named+named or positional+named; required parameter missing; positional after named); well-formed calls record the "
+                    "positional order with defaults filled in, every recorded order is complete; no input panics."),
+        level_note=("Exhaustive bounded execution, not a proof; StaticsContext reduced to the four fields the code touches. The translator's "
+                    "emission order is not covered; surplus positional arguments are silently dropped (excluded from the domain, reported in DESIGN.md)."),
         technique="exhaustive bounded execution of the sliced real function with type-substituted arguments",
         scope="named/default argument ordering leaf",
         assumptions=[],
@@ -283,12 +285,36 @@ PROPS = {
         technique="exhaustive bounded execution of the natively compiled real scheduler over a contract-only step() stub + Kani on the loop-free calls + Verus on the Stop/HostFunc arms",
         scope="Runtime::run_n_steps and below, except step()",
         assumptions=["VmGreenThread::step behaves as its contract-only stub (u8_step); ffi feature off"]),
+    "C08": dict(
+        units=["u7_copy"], level="model_checking",
+        level_text=("Value::deep_copy and arm SpawnTask on the real vm.rs (Kani): for each of 13 concrete value shapes (scalars of all 4 tags, strings 0-2 bytes, "
+                    "struct/tuple/closure, variant, arrays 0-2, struct-of-array, depth-2 nestings, channel) the copy matches the same model as the original, is made "
+                    "only of new objects owned by the destination thread (heap lists disjoint, heap_size accounted), the source is untouched, and a mutation through "
+                    "the real SetField/SetIndex/ArrayPush arm on either side is invisible on the other; channels share the queue. SpawnTask pops exactly n captures "
+                    "and sends one thread with pc=target whose stack is the n copies in order."),
+        level_note=("Bounded: depth<=2, width<=2, <=2 captures, scalar leaf tags fixed per harness. Capture analysis for task blocks (translator) is not covered."),
+        technique="Kani harnesses on vm.rs verbatim, one per concrete value shape",
+        scope="deep_copy, SpawnTask",
+        assumptions=["std VecDeque/Mutex/Arc/mpsc behave as single-threaded FIFO shims"]),
+    "C09": dict(
+        units=["u7_copy"], level="model_checking",
+        level_text=("ConstructChannel/ChannelWrite/ChannelRead on the real vm.rs: histories write,write,read,read (one thread; writer/reader via ChannelObject::copy) "
+                    "return model-equal copies in write order, each read removes exactly one element and allocates only in the reader's heap; a read of an empty "
+                    "channel rewinds pc by exactly one, leaves the channel on the stack and touches nothing else (suspends only the reader)."),
+        level_note=("Partial: FIFO of VecDeque/Mutex/Arc is assumed (single-threaded shims), no real concurrency; exactly-once across interleavings of several "
+                    "threads is a whole-history property and is not decided. Two known findings: queued heap values are raw pointers into the writer's heap "
+                    "(use-after-free once the writer task finishes) and a collector tracing through a channel marks another thread's objects; both reproduced "
+                    "on the real CLI; a possible repair is kept as units/u7_copy/proposed_fix_channel_ownership.patch (not small: two deep copies and a carrier "
+                    "heap per message, and the channel obligations then exceed CBMC's reach)."),
+        technique="Kani harnesses on vm.rs verbatim",
+        scope="channel arms, Drop for VmGreenThread, process_gray channel branch",
+        assumptions=["std VecDeque/Mutex/Arc/mpsc behave as single-threaded FIFO shims"]),
 }
 
 NOT_APPLICABLE = {
 
-    "C08": PENDING,
-    "C09": PENDING, 
+    
+    
     
     
     "C02": "needs a semantics-preservation proof of translate_expr/translate_stmt (3 kLoC AST recursion over Rc/HashMap/StaticsContext); no function-level contract short of compiler correctness expresses it",
